@@ -84,14 +84,21 @@ def run(facts, rep, ctx):
             rep.ok(R1, {"seek": "third u32 + header padding"})
         else:
             rep.violation(R1, b.name, "seek-padding", "the body position is the recorded offset without the header padding", where)
+    elif seek_f is None or pos.get(seek_f) is None:
+        # which record word fills the field was not extracted (several decodings of the record on different paths)
+        rep.inconc(R1, "which record word positions the body (`%s`) was not recognised" % seek_f)
     else:
         rep.violation(R1, b.name, "seek-role", "the body is positioned from record word %s (`%s`), specified the third u32" % (pos.get(seek_f), seek_f), where)
     if size_f is not None and pos.get(size_f) == 2:
         rep.ok(R1, {"size": "second u32"})
+    elif size_f is None or pos.get(size_f) is None:
+        rep.inconc(R1, "which record word gives the byte count (`%s`) was not recognised" % size_f)
     else:
         rep.violation(R1, b.name, "size-role", "the byte count comes from record word %s (`%s`), specified the second u32" % (pos.get(size_f), size_f), where)
     if key_f is not None and pos.get(key_f) == 0:
         rep.ok(R1, {"key": "record name"})
+    elif key_f is None or pos.get(key_f) is None:
+        rep.inconc(R1, "what the entries are keyed by (`%s`) was not recognised" % key_f)
     else:
         rep.violation(R1, b.name, "key-role", "entries are keyed by `%s`" % key_f, where)
     # ---- R16.2 ----------------------------------------------------------------------------------------
